@@ -129,8 +129,8 @@ namespace RecInt
     template <size_t K, size_t MG>
     inline rmint<K, MG>& sub(rmint<K, MG>& a, const rmint<K, MG>& b, const rmint<K, MG>& c) {
         if (b.Value < c.Value) { // c > 0 and (b - c) < p
-            sub(a.Value, a.p, c.Value);
-            add(a.Value, b.Value);
+            sub(a.Value, b.Value, c.Value); // wraps to b - c + 2^(2^K); safe when &a == &b or &a == &c
+            add(a.Value, a.p);              // wraps back to b - c + p
         } else {
             sub(a.Value, b.Value, c.Value);
         }
